@@ -1,12 +1,14 @@
 """C06 — blobs and image payloads round-trip byte-exactly (M2: real MIR of blob.rs on the contract-level page layer)."""
 from vlib import mlane
 
-FUNCTIONS = ["ImageWriter::{new,add_visual_reference,add_pinhole,add_spherical,add_cylindrical,finalize}", "Blob::{write,read}", "BlobSectionHeader::{from_array,from_reader,to_writer}", "error::Converter impls, Error::invalid (MIR)",
+FUNCTIONS = ["E57Reader::blob", "ImageWriter::{new,add_visual_reference,add_pinhole,add_spherical,add_cylindrical,finalize}", "Blob::{write,read}", "BlobSectionHeader::{from_array,from_reader,to_writer}", "error::Converter impls, Error::invalid (MIR)",
              "std::io::copy / Read::take / read_exact / write_all (modelled loops)"]
 ASSUME = [
     "page layer replaced by its contracts (absmodel): logical stream / cursor / page count; C11 decides those contracts on the real PagedWriter/PagedReader MIR",
     "writer pre-state: ANY abstract INV-writer state (any earlier content, any cursor residue mod 1020, 0..8 device pages); blob length 0..5000 symbolic, content symbolic",
     "reader pre-state: ANY device of 1..8 pages with arbitrary content and arbitrary per-page validity, ANY descriptor (offset, length <= 3000)",
+    "public entry E57Reader::blob (real MIR, file header stating the true file length): the same soundness claims, and COMPLETENESS — a blob section of the shape the writer produces (id 0, reserved bytes zero, "
+    "length field = payload length) that lies inside the file on valid pages is delivered with Ok wherever it lies, also directly at the end of the file",
     "source reader chunking: total, and (second scenario) the first two reads return arbitrary short counts",
     "image leg: ImageWriter::add_visual_reference/add_pinhole/add_spherical/add_cylindrical (real MIR) store, for any image and mask bytes (<= 1200 B each) from any 4-aligned writer state, the "
     "descriptor of the image's OWN section in the blob field and the mask's own section in the mask field, under the matching representation kind; the XML leg is outside this check",
@@ -16,7 +18,7 @@ ASSUME = [
 
 def run(ctx):
     from mirsym import spec_blob, spec_image
-    obls, samples = mlane.run_scenarios("C06", "O06", spec_blob.scenarios(ctx["tier"]) + spec_image.scenarios(ctx["tier"]), ctx,
+    obls, samples = mlane.run_scenarios("C06", "O06", spec_blob.scenarios(ctx["tier"]) + spec_blob.e57_scenarios(ctx["tier"]) + spec_image.scenarios(ctx["tier"]), ctx,
                                         "any INV writer state / any device <= 8 pages; blob <= 5000 B (write), descriptor length <= 3000 (read)")
     return dict(obligations=obls, functions=FUNCTIONS, assumptions=ASSUME, samples=samples,
                 extra={"engine": "mirsym (MIR -> z3 5.1)", "mir_regenerated_from": "/repo working tree"})
